@@ -25,7 +25,7 @@ RULE = (
     "static error (the call raises midway), multi-file macro workspaces (main file and its imported files, each also compiled as a top-level file with ONE compiler object per workspace), routine sets chosen to exercise the decompiler's memo table (nested loops, then switches with empty cases), and SSB routine sets of strata 1-3 (incl. ones that take the SsbScript "
     "fallback). Rules: compile with a fresh compiler; compile the SsbScript text of a routine set with the SsbScript compiler; compile with ONE shared compiler instance; decompile fresh "
     "objects; decompile the SAME op objects again; call convert() twice on the same decompiler; SsbScript-decompile the "
-    "same op objects after the ExplorerScript decompiler used them; gc.collect(). Model: the result of every input "
+    "same op objects after the ExplorerScript decompiler used them; a sweep that decompiles every nested-loop input and then every empty-case-switch input of the pool; gc.collect(). Model: the result of every input "
     "(ops, offsets, routine table, text, serialized source maps, or the exception type and message) computed in a FRESH "
     "interpreter process per input. Invariant after every step: the in-process result is byte-identical to the model's, "
     "and the caller's op objects still denote the same routine set. Non-trivial = history of >= 3 steps in which an "
@@ -39,7 +39,7 @@ CASES = {"quick": 160, "thorough": 3000}
 SHARDS = 16
 NO_SHRINK = True  # the state machine run shrinks itself
 
-RULES = ["compile_fresh", "compile_shared", "decompile_fresh", "decompile_same_objects", "convert_twice", "ssbs_same_objects", "compile_ssbscript", "ws_main_fresh", "ws_main_shared", "ws_lib_shared", "gc"]
+RULES = ["compile_fresh", "compile_shared", "decompile_fresh", "decompile_same_objects", "convert_twice", "ssbs_same_objects", "compile_ssbscript", "ws_main_fresh", "ws_main_shared", "ws_lib_shared", "memo_sweep", "gc"]
 
 _MODEL_CACHE: dict[str, dict] = {}
 
@@ -107,20 +107,22 @@ def memo_table_inputs(draw):
         return {"c": "neg", "not": False, "kw": draw(st.sampled_from(["debug", "edit", "variation"]))}
 
     items = []
-    for _ in range(draw(st.integers(1, 2))):
-        inner = {"k": draw(st.sampled_from(["while", "forever"])), "not": False, "cond": cond(), "body": [op()] if draw(st.booleans()) else [op(), op()]}
+    loop_prefixes = draw(st.lists(st.integers(0, 3), min_size=2, max_size=4, unique=True))
+    for npre in loop_prefixes:
+        inner = {"k": draw(st.sampled_from(["while", "forever"])), "not": False, "cond": cond(), "body": draw(st.sampled_from([[], [], [op()], [op(), op()]]))}
         if inner["k"] == "forever":
             inner = {"k": "forever", "body": [op(), {"k": "if", "not": False, "conds": [cond()], "body": [{"k": "ctl", "v": "break_loop"}], "elifs": [], "else": None}]}
         outer = {"k": "forever", "body": [op() for _ in range(draw(st.integers(0, 2)))] + [inner]}
-        body = [op() for _ in range(draw(st.integers(0, 2)))] + [outer]
-        routines = [{"kind": "def", "id": i, "name": None, "target": None, "alias": False, "body": body} for i in range(draw(st.integers(1, 4)))]
-        items.append({"kind": "ssb", "case": {"stratum": 1, "prog": {"imports": [], "macros": [], "routines": routines}, "gaps": [0]}})
-    for _ in range(draw(st.integers(1, 3))):
+        body = [op() for _ in range(npre)] + [outer]
+        # several routines of the same shape: several graphs whose entries can go stale
+        routines = [{"kind": "def", "id": i, "name": None, "target": None, "alias": False, "body": body} for i in range(draw(st.integers(2, 6)))]
+        items.append({"kind": "ssb", "memo": "loop", "case": {"stratum": 1, "prog": {"imports": [], "macros": [], "routines": routines}, "gaps": [0]}})
+    for npre in draw(st.lists(st.integers(0, 4), min_size=3, max_size=5, unique=True)):
         ncase = draw(st.integers(1, 3))
         sw = {"k": "switch", "head": draw(st.sampled_from([{"h": "random", "v": {"t": "int", "v": 3}}, {"h": "var", "v": var()}, {"h": "sector"}])),
               "cases": [{"default": False, "head": {"ch": "val", "v": {"t": "int", "v": j}}, "body": [{"k": "ctl", "v": "break"}] if (j == ncase - 1 or draw(st.booleans())) else []} for j in range(ncase)]}
-        body = [op() for _ in range(draw(st.integers(0, 3)))] + [sw] + [op() for _ in range(draw(st.integers(0, 2)))] + [{"k": "ctl", "v": "end"}]
-        items.append({"kind": "ssb", "case": {"stratum": 1, "prog": {"imports": [], "macros": [], "routines": [{"kind": "def", "id": 0, "name": None, "target": None, "alias": False, "body": body}]}, "gaps": [0]}})
+        body = [op() for _ in range(npre)] + [sw] + [op() for _ in range(draw(st.integers(0, 2)))] + [{"k": "ctl", "v": "end"}]
+        items.append({"kind": "ssb", "memo": "switch", "case": {"stratum": 1, "prog": {"imports": [], "macros": [], "routines": [{"kind": "def", "id": 0, "name": None, "target": None, "alias": False, "body": body}]}, "gaps": [0]}})
     return items
 
 
@@ -144,6 +146,22 @@ class HistoryRunner:
         self.steps.append([rule_name, i])
         if rule_name == "gc":
             gc.collect()
+            return None
+        if rule_name == "memo_sweep":
+            loops = [k for k, it in enumerate(self.pool) if it.get("memo") == "loop"]
+            switches = [k for k, it in enumerate(self.pool) if it.get("memo") == "switch"]
+            for kl in loops:
+                c = results.input_ssb(self.pool[kl])
+                for _ in range(2):
+                    results.decompile_result(gen_ssb.build(c))
+                gc.collect()
+                for ks in switches:
+                    ref = fresh_reference(self.pool[ks])
+                    got = results.decompile_result(gen_ssb.build(results.input_ssb(self.pool[ks])))
+                    self._note(ks, False)
+                    f = self._cmp(rule_name, ks, ref["decompile"], got)
+                    if f is not None:
+                        return f
             return None
         if rule_name.startswith("ws_"):
             k = self._idx(i, ("ws",))
@@ -337,6 +355,10 @@ def run_shard(tier, seed, shard, n_cases, known_b):
         @rule(i=st.integers(0, 20))
         def compile_ssbscript(self, i):
             self._do("compile_ssbscript", i)
+
+        @rule()
+        def memo_sweep(self):
+            self._do("memo_sweep", 0)
 
         @rule()
         def collect_garbage(self):
